@@ -398,9 +398,7 @@ package protocol
 //@     invariant -1 <= rangeindex
 //@     invariant forall(k, 0, rangeindex + 1, key[k] != '\r' && key[k] != '\n')
 
-//@ extern consts.StatusLine(statusCode) r
-//@   allocates
-//@   ensures len(r) >= 2 && r[len(r)-2] == '\r' && r[len(r)-1] == '\n' && forall(k, 0, len(r) - 2, r[k] != '\r' && r[k] != '\n')
+// (consts.StatusLine: contract in pkg/protocol/consts/zz_contracts_verif.go - non-nil checked, the CR/LF shape assumed)
 
 // C04 (which value goes under which name): Server, Date, Content-Type, Content-Encoding, Content-Length, the generic
 // pairs as stored, Trailer, one Set-Cookie line per stored cookie with the cookie's own text, Connection: close.
